@@ -348,6 +348,7 @@ func checkC12(c *Ctx) {
 	checkYAMLBytesBinary(c)
 	c12TomlKeyPrefix(c)
 	c12OutputOnlyToWriter(c)
+	c12ImportedFilesSanitized(c)
 
 	jsonImporterKeyRule(c)
 	c.expect("registry.data-encoding-concrete", 6)
@@ -503,4 +504,68 @@ func c12OutputOnlyToWriter(c *Ctx) {
 	}
 	c.check("writer.output-only-to-writer", "internal/encoding#writer-calls", 0, nW >= 1,
 		fmt.Sprintf("the scan saw %d fmt.Fprint* calls in internal/encoding (expected at least one: the rule must see the encoder's writes)", nW))
+}
+
+// c12ImportedFilesSanitized: decoders may emit references whose import is
+// attached to the identifier (encoding/toml: `time.Format(time.RFC3339)` for
+// date-times) and rely on astutil.Sanitize to materialise the import
+// declaration. Every decoded file that `cue import` adds to its output must
+// therefore pass astutil.Sanitize, on both branches of buildPlan.placeOrphans:
+// directly, or through func placeOrphans, which sanitizes what it returns.
+func c12ImportedFilesSanitized(c *Ctx) {
+	const cmdP = "cmd/cue/cmd"
+	p := c.pkgOpt(cmdP)
+	if p == nil {
+		c.check("import.decoded-files-sanitized", cmdP, 0, false, "anchor: package cmd/cue/cmd not loaded")
+		return
+	}
+	// func placeOrphans sanitizes before every success return
+	pf := c.fn(cmdP, "placeOrphans")
+	pg := c.graph(pf)
+	san := pg.callNodes("cue/ast/astutil.Sanitize")
+	okFunc := len(san) > 0
+	for _, r := range pg.successReturns() {
+		if !pg.mustPassNode(r, setOf(keys(san))) {
+			okFunc = false
+		}
+	}
+	c.check("import.decoded-files-sanitized", pf.Name, pf.Decl.Pos(), okFunc,
+		"func placeOrphans must run astutil.Sanitize on the file it builds before returning it")
+	m := c.fn(cmdP, "(*buildPlan).placeOrphans")
+	g := c.graph(m)
+	info := m.Info()
+	n := 0
+	for id, nd := range g.Nodes {
+		as, ok := nd.N.(*ast.AssignStmt)
+		if !ok || len(as.Lhs) != 1 || len(as.Rhs) != 1 || exprString(as.Lhs[0]) != "files" {
+			continue
+		}
+		call, ok := ast.Unparen(as.Rhs[0]).(*ast.CallExpr)
+		if !ok || exprString(call.Fun) != "append" || len(call.Args) != 2 {
+			continue
+		}
+		n++
+		fv := identObj(info, call.Args[1])
+		okSite := false
+		// (a) the file comes from func placeOrphans
+		for _, m2 := range g.Nodes {
+			if a2, isAs := m2.N.(*ast.AssignStmt); isAs && len(a2.Rhs) == 1 {
+				if c2, isCall := ast.Unparen(a2.Rhs[0]).(*ast.CallExpr); isCall && calleeName(info, c2) == cmdP+".placeOrphans" && len(a2.Lhs) >= 1 && identObj(info, a2.Lhs[0]) == fv {
+					if g.mustPassNode(id, map[int]bool{m2.ID: true}) {
+						okSite = true
+					}
+				}
+			}
+		}
+		// (b) or it is sanitized on the way
+		direct := g.callNodesWhere(func(cl *ast.CallExpr) bool {
+			return len(cl.Args) == 1 && identObj(info, cl.Args[0]) == fv
+		}, "cue/ast/astutil.Sanitize")
+		if len(direct) > 0 && g.mustPassNode(id, setOf(keys(direct))) {
+			okSite = true
+		}
+		c.check("import.decoded-files-sanitized", fmt.Sprintf("%s#append%d", m.Name, n), as.Pos(), okSite,
+			"a decoded file is added to the import output without astutil.Sanitize: an import attached to an identifier (TOML date-times: time.Format) is never declared and the written .cue file fails with `reference \"time\" not found`")
+	}
+	c.expect("import.decoded-files-sanitized", 4)
 }
